@@ -10,7 +10,7 @@
    on the axioms of Coq's classical real numbers (listed by Print Assumptions
    under the theorems that use them). *)
 From Coq Require Import ZArith Reals Lra Floats.
-From Flocq Require Import Core.Zaux Core.Raux Core.Defs Core.FLX IEEE754.BinarySingleNaN IEEE754.PrimFloat.
+From Flocq Require Import Core.Zaux Core.Raux Core.Defs Core.Generic_fmt Core.FLX Core.FLT IEEE754.BinarySingleNaN IEEE754.PrimFloat.
 
 Section Order.
 Variables prec emax : Z.
@@ -133,6 +133,67 @@ Proof.
   revert H. case Req_bool_spec; [|discriminate]. intros A _. apply Rlt_bool_false. lra.
 Qed.
 
+(* the correctly rounded square root is monotone for `<=` as the comparison sees
+   it (x <= y or one of them NaN), on ALL values: a negative argument gives NaN,
+   which compares false with everything *)
+Lemma score_le_top (a : bf) : is_nan a = false -> score a <= 2 * bpow radix2 emax.
+Proof.
+  intros Ha. assert (Hp : 0 < bpow radix2 emax) by apply bpow_gt_0.
+  destruct (is_finite a) eqn:Fa.
+  - destruct (finite_score a Fa) as [Sa Ba]. rewrite Sa. apply Rabs_def2 in Ba. lra.
+  - destruct a as [s|[|]| |s m e B]; try discriminate; cbn [score]; lra.
+Qed.
+
+Theorem Bsqrt_mono (x y : bf) : Bltb y x = false -> Bltb (Bsqrt mode_NE y) (Bsqrt mode_NE x) = false.
+Proof.
+  intros H.
+  destruct (is_nan (Bsqrt mode_NE x)) eqn:Nsx; [apply Bltb_nan_r; exact Nsx|].
+  destruct (is_nan (Bsqrt mode_NE y)) eqn:Nsy; [apply Bltb_nan_l; exact Nsy|].
+  assert (Nx : is_nan x = false) by (destruct x as [s|[|]| |s m e B]; try reflexivity; discriminate).
+  assert (Ny : is_nan y = false) by (destruct y as [s|[|]| |s m e B]; try reflexivity; discriminate).
+  rewrite (Bltb_score y x Ny Nx) in H. rewrite (Bltb_score _ _ Nsy Nsx). apply Rlt_bool_false.
+  revert H. case Rlt_bool_spec; [discriminate|]. intros Hxy _.
+  assert (Hp : 0 < bpow radix2 emax) by apply bpow_gt_0.
+  destruct (Bsqrt_correct prec emax _ _ mode_NE x) as (Rx & Fx & _).
+  destruct (Bsqrt_correct prec emax _ _ mode_NE y) as (Ry & Fy & _).
+  (* y = +infinity: the root of x is below the top *)
+  destruct y as [sy|[|]| |[|] my ey By]; try discriminate Nsy.
+  2: { cbn [Bsqrt]. cbn [score]. apply score_le_top. exact Nsx. }
+  - (* y = +-0 *)
+    destruct x as [sx|[|]| |[|] mx ex Bx]; try discriminate Nsx.
+    + rewrite (proj1 (finite_score _ Fx)), (proj1 (finite_score _ Fy)), Rx, Ry. cbn [B2R]. lra.
+    + exfalso. cbn [score B2R] in Hxy. lra.
+    + rewrite (proj1 (finite_score _ Fx)), (proj1 (finite_score _ Fy)), Rx, Ry.
+      apply round_le; [typeclasses eauto|typeclasses eauto|]. apply sqrt_le_1_alt. exact Hxy.
+  - (* y finite positive *)
+    destruct x as [sx|[|]| |[|] mx ex Bx]; try discriminate Nsx.
+    + rewrite (proj1 (finite_score _ Fx)), (proj1 (finite_score _ Fy)), Rx, Ry.
+      apply round_le; [typeclasses eauto|typeclasses eauto|]. apply sqrt_le_1_alt. exact Hxy.
+    + exfalso. cbn [score] in Hxy.
+      pose proof (abs_B2R_lt_emax _ _ (B754_finite false my ey By)) as Hb. apply Rabs_def2 in Hb. lra.
+    + rewrite (proj1 (finite_score _ Fx)), (proj1 (finite_score _ Fy)), Rx, Ry.
+      apply round_le; [typeclasses eauto|typeclasses eauto|]. apply sqrt_le_1_alt. exact Hxy.
+Qed.
+
+(* x <= y as partial_cmp sees it (x < y, or x == y): preserved by the square root
+   whenever neither root is NaN *)
+Theorem Bsqrt_le (x y : bf) :
+  is_nan (Bsqrt mode_NE x) = false -> is_nan (Bsqrt mode_NE y) = false ->
+  Bltb x y = true \/ Beqb x y = true ->
+  Bltb (Bsqrt mode_NE x) (Bsqrt mode_NE y) = true
+  \/ (Bltb (Bsqrt mode_NE x) (Bsqrt mode_NE y) = false /\ Beqb (Bsqrt mode_NE x) (Bsqrt mode_NE y) = true).
+Proof.
+  intros Nsx Nsy Hle.
+  assert (Hyx : Bltb y x = false).
+  { destruct Hle as [H|H]; [|apply Beqb_not_lt; exact H].
+    destruct (Bltb y x) eqn:E; [|reflexivity]. pose proof (Bltb_trans _ _ _ H E) as C. rewrite Bltb_irrefl in C. discriminate. }
+  pose proof (Bsqrt_mono x y Hyx) as Hm.
+  destruct (Bltb (Bsqrt mode_NE x) (Bsqrt mode_NE y)) eqn:E; [left; reflexivity|right]. split; [reflexivity|].
+  rewrite (Bltb_score _ _ Nsx Nsy) in E. rewrite (Bltb_score _ _ Nsy Nsx) in Hm. rewrite (Beqb_score _ _ Nsx Nsy).
+  revert E Hm. case Rlt_bool_spec; [discriminate|]. intros A _. case Rlt_bool_spec; [discriminate|]. intros B _.
+  apply Req_bool_true. lra.
+Qed.
+
 End Order.
 
 (* ---- binary64: Coq's primitive floats ---- *)
@@ -154,4 +215,15 @@ Proof. rewrite !is_nan_equiv, !ltb_equiv. apply Bltb_negtrans. Qed.
 
 Theorem f64_eqb_not_lt (x y : PrimFloat.float) : PrimFloat.eqb x y = true -> PrimFloat.ltb y x = false.
 Proof. rewrite eqb_equiv, ltb_equiv. apply Beqb_not_lt. Qed.
+
+Theorem f64_sqrt_mono (x y : PrimFloat.float) :
+  PrimFloat.ltb y x = false -> PrimFloat.ltb (PrimFloat.sqrt y) (PrimFloat.sqrt x) = false.
+Proof. rewrite !ltb_equiv, !sqrt_equiv. apply Bsqrt_mono. Qed.
+
+Theorem f64_sqrt_le (x y : PrimFloat.float) :
+  PrimFloat.is_nan (PrimFloat.sqrt x) = false -> PrimFloat.is_nan (PrimFloat.sqrt y) = false ->
+  PrimFloat.ltb x y = true \/ PrimFloat.eqb x y = true ->
+  PrimFloat.ltb (PrimFloat.sqrt x) (PrimFloat.sqrt y) = true
+  \/ (PrimFloat.ltb (PrimFloat.sqrt x) (PrimFloat.sqrt y) = false /\ PrimFloat.eqb (PrimFloat.sqrt x) (PrimFloat.sqrt y) = true).
+Proof. rewrite !is_nan_equiv, !ltb_equiv, !eqb_equiv, !sqrt_equiv. apply Bsqrt_le. Qed.
 End F64.
